@@ -31,6 +31,7 @@ pub enum Act {
     SetShallow(usize),
     UpgradeField(usize),
     CloneField(usize),
+    DowngradeField(usize),
 }
 
 #[derive(Clone, Debug, PartialEq)]
@@ -78,6 +79,7 @@ pub fn parse_act(ws: &[&str]) -> Option<Act> {
         ["setShallow", a] => SetShallow(n(a)?),
         ["upgradeField", a] => UpgradeField(n(a)?),
         ["cloneField", a] => CloneField(n(a)?),
+        ["downgradeField", a] => DowngradeField(n(a)?),
         _ => return None,
     })
 }
@@ -115,6 +117,7 @@ impl Act {
             SetShallow(a) => format!("setShallow {}", a),
             UpgradeField(a) => format!("upgradeField {}", a),
             CloneField(a) => format!("cloneField {}", a),
+            DowngradeField(a) => format!("downgradeField {}", a),
         }
     }
 }
